@@ -22,8 +22,13 @@ HARNESSES += [
     {"name": "ntsfields0", "fn": M + "net/nts.VerifC14NTSFields0", "bounds": "unique id 32 bytes, one 8-byte cookie, no placeholder, authenticator"},
     {"name": "ntsfields2", "fn": M + "net/nts.VerifC14NTSFields2", "bounds": "... two 8-byte placeholders"},
     {"name": "ntsfields7", "fn": M + "net/nts.VerifC14NTSFields7", "bounds": "... seven 16-byte placeholders", "thorough_only": True},
+    {"name": "ntspadded5", "fn": M + "net/nts.VerifC14NTSFieldsPadded5", "bounds": "one 5-byte cookie (padded to 8), one placeholder"},
+    {"name": "ntspadded7", "fn": M + "net/nts.VerifC14NTSFieldsPadded7", "bounds": "one 7-byte cookie (padded to 8), two placeholders"},
+    {"name": "cookiekeys32x64", "fn": M + "net/ntske.VerifC14CookieKeys32x64", "bounds": "server cookie with a 32-byte S2C and a 64-byte C2S key"},
+    {"name": "cookiekeys64x32", "fn": M + "net/ntske.VerifC14CookieKeys64x32", "bounds": "server cookie with a 64-byte S2C and a 32-byte C2S key"},
+    {"name": "cookiekeys0x16", "fn": M + "net/ntske.VerifC14CookieKeys0x16", "bounds": "server cookie with an empty S2C and a 16-byte C2S key"},
     {"name": "cookies", "fn": M + "net/ntske.VerifC10Cookie", "bounds": "server cookie with 32-byte keys, sealed and encoded by the real code"},
 ]
 CLAIMED = True
 LEVEL_TEXT = "Bounded model checking of the real codecs on fully symbolic values and buffers: NTP header (value->bytes->value, bytes->value->bytes, accessors vs. first byte, setters), CSPTP message and request/response TLVs at their declared lengths, NTS extension fields (each decodes as the kind encoded, 4-byte aligned), server cookies (plain and encrypted)."
-LEVEL_NOTE = "NTS fields with aligned lengths only (32-byte id, 8/16-byte cookies); NTS-KE records and the segmentation independence of the record stream are covered by C20's ReadData harness, not here; ideal AEAD for the authenticator."
+LEVEL_NOTE = "NTS fields with a 32-byte id and 8/16-byte (aligned) or 5/7-byte (padded) cookies; NTS-KE records and the segmentation independence of the record stream are covered by C20's ReadData harness, not here; ideal AEAD for the authenticator."
